@@ -128,3 +128,273 @@ func c10ReturnDropsMarkers(w *World, r *Report) {
 		r.Violate("R-C10-7", key, w.pos(fn.Pos()), "on the multi-value path the markers of the loops and try blocks the return statement leaves stay between the call frame and the returned values, and are copied to the caller's stack with them")
 	}
 }
+
+// R-C10-8: break / continue unwind to the loop they jump to.
+//
+// A jump out of try statements has to close exactly the tries (and scopes)
+// opened since the *target* loop began. A labelled break/continue, or a
+// continue inside a switch, targets a loop that is not the innermost entry of
+// the compiler's loop stack; measuring against the innermost entry leaves the
+// tries between the two armed, and a later error in the same function is then
+// delivered to a catch block whose try was left long before.
+func c10UnwindToTarget(w *World, r *Report) {
+	r.Rule("R-C10-8", "loop exits unwind relative to their target: in emitScopeUnwindTo every read of a loop's tryDepth / scopeDepth is a read of the target-loop parameter (none through the compiler's current loop), and compileBreak / compileContinue hand emitScopeUnwindTo the same loop whose breaks / continues list receives the fixup", 4)
+
+	cp := w.pkg("internal/language/compiler")
+	if cp == nil {
+		return
+	}
+
+	fn := w.ssaFunc(cp, "Compiler.emitScopeUnwindTo")
+	if fn == nil {
+		r.Anchor("R-C10-8", "compiler.Compiler.emitScopeUnwindTo")
+
+		return
+	}
+
+	var target *ssa.Parameter
+
+	for _, p := range fn.Params {
+		if n := namedOf(p.Type()); n != nil && n.Obj().Name() == "loop" {
+			target = p
+		}
+	}
+
+	if target == nil {
+		r.Anchor("R-C10-8", "the *loop parameter of emitScopeUnwindTo")
+
+		return
+	}
+
+	for _, field := range []string{"tryDepth", "scopeDepth"} {
+		fromTarget, other := 0, ""
+
+		allInstrs(fn, func(in ssa.Instruction) {
+			fa, ok := in.(*ssa.FieldAddr)
+			if !ok || fieldName(fa.X.Type(), fa.Field) != field {
+				return
+			}
+
+			if n := namedOf(fa.X.Type()); n == nil || n.Obj().Name() != "loop" {
+				return
+			}
+
+			if resolveLocal(fa.X) == ssa.Value(target) || fa.X == ssa.Value(target) {
+				fromTarget++
+			} else {
+				other = w.pos(fa.Pos())
+			}
+		})
+
+		key := "compiler.Compiler.emitScopeUnwindTo|" + field + " of the target loop"
+
+		switch {
+		case other != "":
+			r.Violate("R-C10-8", key, other, "the unwind is measured against a loop other than the one the jump targets ("+field+" read through the compiler's current loop): for a labelled break/continue, or a continue inside a switch, the try statements between the two loops are left armed")
+		case fromTarget == 0:
+			r.Violate("R-C10-8", key, w.pos(fn.Pos()), "emitScopeUnwindTo no longer reads "+field+" of its target loop")
+		default:
+			r.Discharge("R-C10-8", key, w.pos(fn.Pos()), "read only from the target-loop parameter")
+		}
+	}
+
+	for name, list := range map[string]string{"Compiler.compileBreak": "breaks", "Compiler.compileContinue": "continues"} {
+		cf := w.ssaFunc(cp, name)
+		if cf == nil {
+			r.Anchor("R-C10-8", "compiler."+name)
+
+			continue
+		}
+
+		var arg, base ssa.Value
+
+		allInstrs(cf, func(in ssa.Instruction) {
+			if c, ok := in.(*ssa.Call); ok && c.Common().StaticCallee() == fn && len(c.Call.Args) >= 2 {
+				arg = c.Call.Args[1]
+			}
+
+			if st, ok := in.(*ssa.Store); ok {
+				if fa, ok := st.Addr.(*ssa.FieldAddr); ok && fieldName(fa.X.Type(), fa.Field) == list {
+					base = fa.X
+				}
+			}
+		})
+
+		key := "compiler." + name + "|unwinds to the loop that gets the fixup"
+
+		switch {
+		case arg == nil || base == nil:
+			r.Violate("R-C10-8", key, w.pos(cf.Pos()), "could not find the call of emitScopeUnwindTo and the store to the loop's "+list+" list")
+		case arg != base && resolveLocal(arg) != resolveLocal(base):
+			r.Violate("R-C10-8", key, w.pos(cf.Pos()), "the loop handed to emitScopeUnwindTo is not the loop whose "+list+" list receives the branch: the jump unwinds to one loop and lands in another")
+		default:
+			r.Discharge("R-C10-8", key, w.pos(cf.Pos()), "same loop value")
+		}
+	}
+}
+
+// R-C10-9: handleCatch counts the markers of live frames only.
+//
+// Every Try pushes a "try" marker; taking a catch consumes the marker and
+// marks the frame spent (addr = 0). When an error is caught by an outer frame,
+// the unwind has to pop one marker for that frame plus one for every frame
+// above it that is still live -- the same "addr > 0" test the search for the
+// catching frame uses. Counting by any other property of the frame pops past
+// the catching try's own marker (or stops short of it): the error then
+// surfaces as "stack underflow" instead of reaching the catch block.
+func c10MarkerCount(w *World, r *Report) {
+	r.Rule("R-C10-9", "in bytecode.handleCatch the count of try markers to unwind is incremented only behind 'the frame's catch address is greater than zero' (the liveness test the search for the catching frame uses)", 1)
+
+	bp := w.pkg("internal/language/bytecode")
+	if bp == nil {
+		return
+	}
+
+	fn := w.ssaFunc(bp, "handleCatch")
+	if fn == nil {
+		r.Anchor("R-C10-9", "bytecode.handleCatch")
+
+		return
+	}
+
+	n := 0
+
+	allInstrs(fn, func(in ssa.Instruction) {
+		bo, ok := in.(*ssa.BinOp)
+		if !ok || bo.Op != token.ADD {
+			return
+		}
+
+		if k, isC := constInt(bo.Y); !isC || k != 1 {
+			return
+		}
+
+		// the counter starts at 1 (the catching frame's own marker); the loop
+		// index next to it starts at tryIndex+1
+		ph, isPhi := bo.X.(*ssa.Phi)
+		if !isPhi {
+			return
+		}
+
+		startsAtOne := false
+
+		for _, e := range ph.Edges {
+			if k, isC := constInt(e); isC && k == 1 {
+				startsAtOne = true
+			}
+		}
+
+		if !startsAtOne {
+			return
+		}
+
+		n++
+
+		key := "bytecode.handleCatch|marker counted for a live frame"
+		if n > 1 {
+			key += " #" + sprintInt(n)
+		}
+
+		live := false
+
+		for _, f := range dominatingFacts(bo.Block()) {
+			if f.Kind != "cmp" {
+				continue
+			}
+
+			zero := func(v ssa.Value) bool { k, ok := constInt(v); return ok && k == 0 }
+
+			if (f.Op == token.GTR && isFieldNamed(f.X, "addr") && zero(f.Y)) || (f.Op == token.LSS && zero(f.X) && isFieldNamed(f.Y, "addr")) {
+				live = true
+			}
+		}
+
+		if live {
+			r.Discharge("R-C10-9", key, w.pos(bo.Pos()), "behind addr > 0")
+		} else {
+			r.Violate("R-C10-9", key, w.pos(bo.Pos()), "a frame above the catching one is counted as holding a try marker by a test other than 'its catch address is greater than zero': a spent frame (its catch already taken, e.g. the fallback of a '?:' optional) is counted again, the unwind pops past the catching try's own marker, and the error ends as 'stack underflow' instead of reaching the catch block")
+		}
+	})
+
+	if n == 0 {
+		r.Anchor("R-C10-9", "a counter that starts at 1 and is incremented in bytecode.handleCatch")
+	}
+}
+
+// R-C10-10: a deferred call that has run is off the defer stack.
+//
+// RunDefers is emitted before the code that evaluates a return statement's
+// expressions (the repository's own tests rely on deferred closures seeing and
+// changing a returned local). If one of those expressions panics, the
+// unwinding runs whatever the function's defer stack still holds; unless
+// RunDefers removed what it ran, every deferred call runs a second time.
+func c10DefersRunOnce(w *World, r *Report) {
+	r.Rule("R-C10-10", "what RunDefers ran cannot run again: on every path from the call of invokeDeferredStatements in runDefersByteCode to a return the context's defer stack is stored (reset), or invokeDeferredStatements itself takes each statement off the stack inside its loop", 1)
+
+	bp := w.pkg("internal/language/bytecode")
+	if bp == nil {
+		return
+	}
+
+	run := w.ssaFunc(bp, "runDefersByteCode")
+	inv := w.ssaFunc(bp, "Context.invokeDeferredStatements")
+
+	if run == nil || inv == nil {
+		r.Anchor("R-C10-10", "bytecode.runDefersByteCode and bytecode.Context.invokeDeferredStatements")
+
+		return
+	}
+
+	isReset := func(in ssa.Instruction) bool {
+		st, ok := in.(*ssa.Store)
+		if !ok {
+			return false
+		}
+
+		fa, ok := st.Addr.(*ssa.FieldAddr)
+
+		return ok && fieldName(fa.X.Type(), fa.Field) == "deferStack"
+	}
+
+	key := "bytecode.runDefersByteCode|defers taken off the stack"
+
+	// (B) popped inside the loop of invokeDeferredStatements
+	for _, li := range naturalLoops(inv) {
+		for b := range li.body {
+			for _, in := range b.Instrs {
+				if isReset(in) {
+					r.Discharge("R-C10-10", key, w.pos(in.Pos()), "each statement is taken off the stack inside invokeDeferredStatements' loop")
+
+					return
+				}
+			}
+		}
+	}
+
+	// (A) reset after the call
+	var call ssa.Instruction
+
+	allInstrs(run, func(in ssa.Instruction) {
+		if c, ok := in.(*ssa.Call); ok && c.Common().StaticCallee() == inv {
+			call = in
+		}
+	})
+
+	if call == nil {
+		r.Anchor("R-C10-10", "the call of invokeDeferredStatements in bytecode.runDefersByteCode")
+
+		return
+	}
+
+	escape := pathAvoiding(call, nil, isReset, func(i ssa.Instruction) bool {
+		_, isRet := i.(*ssa.Return)
+
+		return isRet
+	})
+
+	if escape != nil {
+		r.Violate("R-C10-10", key, w.pos(call.Pos()), "RunDefers leaves the statements it ran on the defer stack: when an expression of the return statement that follows panics (return g(), g panics, a caller recovers) the unwinding runs the function's deferred calls a second time")
+	} else {
+		r.Discharge("R-C10-10", key, w.pos(call.Pos()), "the defer stack is reset on every path after the statements ran")
+	}
+}
